@@ -62,9 +62,18 @@ func TestVerifC01Public(t *testing.T) {
 			}
 			before := snapshot(td.root)
 			var err error
+			// (loops and lock waits in the instrumented packages count against a
+			// budget: a hang is a verdict, not a 30-minute test timeout)
+			verifrt.SetTickBudget(50_000_000)
 			pv, stack := guarded(func() {
 				err = Run(RunConfig{TelemetryDir: td.root, UploadURL: srv.srv.URL, Env: env, StartTime: s.Starts[0]})
 			})
+			over := verifrt.TickExceeded()
+			verifrt.SetTickBudget(0)
+			if over {
+				c05r.Violate("uploader-unbounded-loop", fmt.Sprintf("the public upload.Run exceeded the loop/lock-wait budget\n%.800s", stack), verifrt.CaseReplay(i, nil))
+				return
+			}
 			c.c01.Eval()
 			c.c07.Eval()
 			c.c07.Distinct(fmt.Sprint(i))
